@@ -88,13 +88,10 @@ def _model(draw):
 
 
 SPECIAL_NAMES = ["lambda", "in", "is", "class", "def", "None", "as", "type", "fn", "let", "match", "self", "mut", "E", "PI", "var", "function", "new", "variables", "Math", "math", "return", "if", "x y", "k-1", "2x"]
-# where each of them cannot be used as it is (found by probing every name against every generator)
-NAME_BREAKS = {
-    "py": {"lambda", "in", "is", "class", "def", "None", "as", "return", "if", "x y", "k-1", "2x", "math"},
-    "ts": {"in", "class", "let", "var", "function", "new", "variables", "Math", "return", "if", "x y", "k-1", "2x"},
-    "rs": {"in", "type", "fn", "let", "match", "self", "mut", "as", "E", "PI", "None", "return", "if", "x y", "k-1", "2x"},
-    "jl": set(SPECIAL_NAMES),
-}
+# none of them may break the generated code (until the repair of the identifier handling each broke at least one target:
+# python: lambda in is class def None as return if math + no identifiers; typescript: in class let var function new variables
+# Math return if + no identifiers; rust: in type fn let match self mut as E PI None return if + no identifiers)
+NAME_BREAKS: dict[str, set[str]] = {"py": set(), "ts": set(), "rs": set(), "jl": set()}
 
 
 def _rename(obj, old: str, new: str):
